@@ -102,6 +102,9 @@ var errReader = errors.New("injected reader failure")
 
 func silent() *log.Logger { return log.New(io.Discard, "", 0) }
 
+// Silent returns a logger that discards everything.
+func Silent() *log.Logger { return silent() }
+
 // OpRecord describes one executed operation (for evidence samples).
 type OpRecord struct {
 	Op   string `json:"op"`
